@@ -318,28 +318,23 @@ func ruleSplitProgress(c *eng.Ctx) {
 		return
 	}
 	name := "rag.(*SizeCalculator).SplitToSize"
-	// the loop-carried string phi
-	var rem *ssa.Phi
-	eng.Instrs(fn, false, func(in ssa.Instruction) {
-		if ph, ok := in.(*ssa.Phi); ok {
-			if b, ok := ph.Type().Underlying().(*types.Basic); ok && b.Kind() == types.String && isLoopCarried(ph) {
-				rem = ph
-			}
-		}
-	})
-	if rem == nil {
+	// the remaining text: a loop-carried string phi, or a field of a local state struct
+	lp := findSplitLoop(fn)
+	if lp == nil {
 		c.Viol(R, name+"#remainder", fn.Pos(), "no loop-carried remainder string found")
 		return
 	}
 	okShrink := true
 	why := ""
-	for i, e := range rem.Edges {
-		pred := rem.Block().Preds[i]
-		if !rem.Block().Dominates(pred) {
-			continue // loop entry
-		}
-		// e must be TrimSpace*(rem[split:]) with split > 0 on the way
-		v := e
+	ups := lp.updates()
+	if len(ups) == 0 {
+		okShrink, why = false, "the remainder is never advanced inside the loop"
+	}
+	remPos := fn.Pos()
+	for _, u := range ups {
+		remPos = u.pos
+		// the new value must be TrimSpace*(rem[split:]) with split > 0 on the way
+		v := u.val
 		for {
 			call, ok := v.(*ssa.Call)
 			if !ok {
@@ -353,13 +348,13 @@ func ruleSplitProgress(c *eng.Ctx) {
 			break
 		}
 		sl, ok := v.(*ssa.Slice)
-		if !ok || sl.X != ssa.Value(rem) || sl.Low == nil {
+		if !ok || !lp.isRemLoad(sl.X, u.step) || sl.Low == nil {
 			okShrink = false
 			why = "the next remainder is not remaining[split:]"
 			continue
 		}
 		split := sl.Low
-		pos := eng.GuardedBy(fn, pred, func(f eng.Fact) bool {
+		pos := eng.GuardedBy(u.step.fn, u.blk, func(f eng.Fact) bool {
 			op, x, y, ok := f.Cmp()
 			if !ok || x != split {
 				return false
@@ -372,13 +367,13 @@ func ruleSplitProgress(c *eng.Ctx) {
 			why = "the cut position is not proven > 0 before the loop continues: a zero-length cut would repeat forever"
 		}
 	}
-	c.Check(okShrink, R, name+"#shrinks", rem.Pos(), "remainder strictly shrinks on the back edge", why)
+	c.Check(okShrink, R, name+"#shrinks", remPos, "remainder strictly shrinks on the back edge", why)
 	// loop condition: len(remaining) > 0
 	okCond := false
 	eng.Instrs(fn, false, func(in ssa.Instruction) {
 		if b, ok := in.(*ssa.BinOp); ok && b.Op == token.GTR {
 			if call, ok := b.X.(*ssa.Call); ok {
-				if bi, ok := call.Call.Value.(*ssa.Builtin); ok && bi.Name() == "len" && call.Call.Args[0] == ssa.Value(rem) {
+				if bi, ok := call.Call.Value.(*ssa.Builtin); ok && bi.Name() == "len" && lp.isRemLoad(call.Call.Args[0], lp.steps[0]) {
 					if k, isC := eng.ConstInt(b.Y); isC && k == 0 {
 						okCond = true
 					}
@@ -386,7 +381,7 @@ func ruleSplitProgress(c *eng.Ctx) {
 			}
 		}
 	})
-	c.Check(okCond, R, name+"#loop-condition", rem.Pos(), "loop runs while the remainder is non-empty", "the split loop is no longer bounded by the remainder becoming empty")
+	c.Check(okCond, R, name+"#loop-condition", remPos, "loop runs while the remainder is non-empty", "the split loop is no longer bounded by the remainder becoming empty")
 }
 
 func ruleOverlapSource(c *eng.Ctx) {
